@@ -806,6 +806,8 @@ func valueType(v Value) byte {
 		return 3
 	case BooleanValue:
 		return 4
+	case UnsignedValue:
+		return 5
 	default:
 		return 0
 	}
